@@ -25,8 +25,10 @@ def gen_type(rng, depth, objects):
         return "float"
     if r < 0.60:
         return "bool"
-    if r < 0.66:
+    if r < 0.63:
         return ("enum", rng.sample(["red", "green", "blue", "x", "y"], rng.randrange(1, 4)))
+    if r < 0.66:
+        return ("pattern",)
     if r < 0.76:
         return ("list", gen_type(rng, depth + 1, objects))
     if r < 0.84:
@@ -80,6 +82,8 @@ def gen_value(rng, t, objects):
         return rng.randrange(lo, hi + 1)
     if t[0] == "enum":
         return rng.choice(t[1])
+    if t[0] == "pattern":
+        return rng.choice(["^a+$", "[0-9]{2,3}", "x|y"])
     if t[0] == "list":
         return [gen_value(rng, t[1], objects) for _ in range(rng.randrange(0, 3))]
     if t[0] == "map":
@@ -147,6 +151,8 @@ def invalidations(rng, schema, doc):
             return [("wrong-type:text-for-bool", "maybe"), ("wrong-type:list-for-bool", [True])]
         if base == "enum":
             return [("wrong-enum", "not-a-member"), ("wrong-type:list-for-enum", ["red"])]
+        if base == "pattern":
+            return [("wrong-type:invalid-pattern", "(unclosed"), ("wrong-type:list-for-pattern", ["a"])]
         if base == "list":
             return [("wrong-type:scalar-for-list", "scalar"), ("wrong-type:map-for-list", {"a": 1})]
         if base == "map":
